@@ -1,5 +1,5 @@
 (* Properties/C10.v — Inner-product argument accepts exactly the correct openings, for all lengths 2^k. *)
-Require Import BP.Proofs.IPPLemmas.
+Require Import BP.Proofs.IPPLemmas BP.Proofs.SLoopLemmas.
 Open Scope F_scope.
 Open Scope M_scope.
 
@@ -109,3 +109,14 @@ Theorem C10_degenerate_rejected :
     ipp_verification_scalars RO tr n p = Err EVerification.
 Proof. intros; apply verify_degenerate_rejected; assumption. Qed.
 Print Assumptions C10_degenerate_rejected.
+
+(* the s vector computed index by index as in the code —
+     s[0] = prod u_j^-1;  for i in 1..n: s[i] = s[i - 2^(lg i)] * u_sq[(lg_n - 1) - lg i]
+   — is the specification's s vector (and the blocked form the model evaluates) *)
+Theorem C10_s_loop_index_exact :
+  forall (K : FieldOps) (FL : FieldLaws K) (us : list K),
+    (forall u, In u us -> u <> f0) ->
+    s_index (map (fun u => (u * u)%F) us) (prod_inv us) = svec us
+    /\ forall (u_sq : list K) (allinv : K), s_index u_sq allinv = s_build (rev u_sq) [allinv].
+Proof. intros K FL us H. split; [apply s_index_is_svec; exact H | intros; apply s_index_eq_build]. Qed.
+Print Assumptions C10_s_loop_index_exact.
